@@ -21,15 +21,16 @@ import (
 //verif:stub sigs.k8s.io/yaml.Unmarshal -> stubYAMLUnmarshal
 
 type docSpec struct {
-	id      int
-	kind    string
-	meta    int // 0 no metadata, 1 metadata without annotations, 2 empty annotations, 3 other annotation only, 4 hook annotation
-	events  string
-	weight  string
-	policy  string
-	unknown bool // names an unknown event
-	text    string
-	file    string
+	id                int
+	kind              string
+	meta              int // 0 no metadata, 1 metadata without annotations, 2 empty annotations, 3 other annotation only, 4 hook annotation
+	events            string
+	weight            string
+	policy            string
+	unknown           bool // names an unknown event
+	eventIx, policyIx int  // index into eventMenu / policyMenu when drawn from them (first document)
+	text              string
+	file              string
 }
 
 var docSpecs []*docSpec
@@ -81,8 +82,11 @@ func stripLeadingSep(s string) string {
 }
 
 var kindMenu = []string{"Namespace", "Secret", "Deployment", "Job", "Zeta", "Alpha", ""}
-var eventMenu = []string{"post-install, Pre-Upgrade ", "bogus", "pre-install,bogus", "test", ""}
-var eventUnknown = []bool{false, true, true, false, true}
+var eventMenu = []string{"post-install, Pre-Upgrade ", "bogus", "pre-install,bogus", "test", "", "bogus,pre-install"}
+var eventUnknown = []bool{false, true, true, false, true, true}
+var eventWant = [][]release.HookEvent{{release.HookPostInstall, release.HookPreUpgrade}, nil, nil, {release.HookTest}, nil, nil}
+var policyMenu = []string{"", "before-hook-creation,hook-failed", "hook-succeeded , Hook-Failed, before-hook-creation"}
+var policyWant = [][]release.HookDeletePolicy{nil, {release.HookBeforeHookCreation, release.HookFailed}, {release.HookSucceeded, release.HookFailed, release.HookBeforeHookCreation}}
 
 // ndDoc draws one document. orderOnly: the kind varies over the whole menu and
 // the document is either a plain manifest or a hook with a fixed known event;
@@ -108,9 +112,10 @@ func ndDoc(id int, file string, orderOnly bool) *docSpec {
 		d.meta = ndChoice("meta", 5)
 		if d.meta == 4 {
 			e := ndChoice("events", len(eventMenu))
-			d.events, d.unknown = eventMenu[e], eventUnknown[e]
+			d.events, d.unknown, d.eventIx = eventMenu[e], eventUnknown[e], e
 			d.weight = ndStringIn("weight", ndIntRange("weight.len", 0, 2), "-0159a ")
-			d.policy = []string{"", "before-hook-creation,hook-failed"}[ndChoice("policy", 2)]
+			d.policyIx = ndChoice("policy", len(policyMenu))
+			d.policy = policyMenu[d.policyIx]
 		}
 	}
 	if ndNative() {
@@ -296,6 +301,19 @@ func h08(orderOnly bool) {
 			np = strings.Count(d.policy, ",") + 1
 		}
 		vAssert("hook/delete-policies", len(h.DeletePolicies) == np)
+		if !orderOnly && d.id == 0 && d.meta == 4 {
+			// exact oracle for the fully general first document: events and delete
+			// policies are the trimmed, lower-cased items of the annotation, in order
+			want := eventWant[d.eventIx]
+			vAssert("hook/events-exactly-the-annotated-ones", len(h.Events) == len(want))
+			for k := range want {
+				vAssert("hook/events-exactly-the-annotated-ones", k < len(h.Events) && h.Events[k] == want[k])
+			}
+			wp := policyWant[d.policyIx]
+			for k := range wp {
+				vAssert("hook/delete-policies-exactly-the-annotated-ones", k < len(h.DeletePolicies) && h.DeletePolicies[k] == wp[k])
+			}
+		}
 	}
 	vObservef("docs=%d generic=%d hooks=%d uninstall=%v", len(docSpecs), len(generic), len(hooks), uninstall)
 }
